@@ -584,6 +584,18 @@ def decodeJsonBody (J : JsonCodec) (bodyFields : List (Str × Codec (Option JVal
       | .arr _ => .outside
       | _ => .deser
 
+/-- `parse_query`: `serde_html_form::from_str(request.uri().query().unwrap_or(""))` into the
+`query_all` field, or into `RequestQuery` and from there into the query fields; nothing is parsed
+when the request has neither. Result: the values of the query fields and of the `query_all`
+field. -/
+def decodeQuery (F : FormCodec) (d : ReqDesc) (query : Str) :
+    Option (List (List Str) × List (List (Str × Str))) :=
+  match d.queryAllFields with
+  | c :: _ => (c.norm (F.parse query)).map (fun x => ([], [x]))
+  | [] =>
+    if d.hasQueryFields then (decodeQueryFields d.queryFields (F.parse query)).map (fun x => (x, []))
+    else some ([], [])
+
 /-- `try_from_http_request`. -/
 def tryFromHttpRequest (F : FormCodec) (J : JsonCodec) (d : ReqDesc) (a : Arrived) :
     FromOut ReqVal :=
@@ -595,12 +607,7 @@ def tryFromHttpRequest (F : FormCodec) (J : JsonCodec) (d : ReqDesc) (a : Arrive
     | none => .deser
     | some pathVars =>
       -- parse_query
-      let pairs := F.parse a.query
-      match (match d.queryAllFields with
-             | c :: _ => (c.norm pairs).map (fun x => (([] : List (List Str)), [x]))
-             | [] =>
-               if d.hasQueryFields then (decodeQueryFields d.queryFields pairs).map (fun x => (x, []))
-               else some ([], [])) with
+      match decodeQuery F d a.query with
       | none => .deser
       | some (queryVars, queryAllVars) =>
         -- parse_headers
